@@ -25,10 +25,11 @@ type OracleC03 struct {
 	initAtEnd   map[int64]bool // height -> minter initialised at the end of that block (observed switch)
 	totalMinted math.Int
 	mintStartMs int64
+	claimedIDs  map[uint64]bool // a deposit is a supply event once
 }
 
 func NewOracleC03() *OracleC03 {
-	return &OracleC03{counters: newCounters(), initAtEnd: map[int64]bool{}, totalMinted: math.ZeroInt()}
+	return &OracleC03{counters: newCounters(), initAtEnd: map[int64]bool{}, totalMinted: math.ZeroInt(), claimedIDs: map[uint64]bool{}}
 }
 
 func (o *OracleC03) ID() string { return "C03" }
@@ -98,7 +99,15 @@ func (o *OracleC03) AfterBlock(c *Chain, b *BlockCtx) []*Violation {
 					if k >= len(m.Ids2) {
 						break
 					}
+					if o.claimedIDs[id] {
+						// a deposit already turned into tokens is not a documented supply event a second time
+						o.count("repeated_claims_expect_zero")
+						continue
+					}
 					amt, _, _, ok := depositAggregate(v, id, m.Ids2[k])
+					if ok {
+						o.claimedIDs[id] = true
+					}
 					if !ok {
 						out = append(out, o.v(b.H, "claim", "claim-without-aggregate", "tx %d: successful claim of deposit %d index %d but no decodable aggregate exists there", i, id, m.Ids2[k]))
 						continue
